@@ -30,6 +30,8 @@ HSTATE = {"accepted": "HAccepted", "canceled": "HCanceled", "settled": "HSettled
 W64 = 1 << 64
 # outcomes produced by processKeySend / processAMP before the replay lookup
 JIT = ("keysend_error", "amp_error")
+# signatures of the registered findings (C15-F1, C15-F2); everything else is a violation
+KNOWN_SIG = ("C15 replay:jit-precheck", "C15 amp:kv-settled-set-reuse-drops-records")
 
 
 # ---------------------------------------------------------------- Coq terms
@@ -56,7 +58,7 @@ def t_event(e):
     k = e[0]
     if k == "add":
         v = e[1]
-        return ("(EAdd (mkInv %s %s %s %s %s %s %s %s COpen [] 0%%N))" % (
+        return ("(EAdd (mkInv %s %s %s %s %s %s %s %s COpen [] 0%%N []))" % (
             cN(v["hash"]), cN(v["addr"]), cN(v["value"]), copt(v["pre"], cN), cZ(v["delta"]),
             cbool(v["hodl"]), cbool(v["amp"]), cbool(v["addr_req"])))
     if k == "notify":
@@ -64,24 +66,40 @@ def t_event(e):
         mpp = "None" if h["mpp"] is None else "(Some (%s, %s))" % (cN(h["mpp"][0]), cN(h["mpp"][1]))
         ks = h["ks"]
         kst = "KSNone" if ks is None else ("KSBad" if ks == "bad" else "(KSPre %s)" % cN(ks))
-        return "(ENotify (mkCtx %s %s %s %s %s %s %s %s %s %s))" % (
+        return "(ENotify (mkCtx %s %s %s %s %s %s %s %s %s %s %s %s %s))" % (
             cN(h["hash"]), cN(h["key"]), cN(h["amt"]), cZ(h["expiry"]), cZ(h["height"]), mpp,
-            cbool(h["amp"]), copt(h["path"], cN), cN(h["total"]), kst)
+            cbool(h["amp"]), copt(h["path"], cN), cN(h["total"]), kst,
+            cN(h.get("set_id", 0)), cN(h.get("share", 0)), cN(h.get("idx", 0)))
     if k == "settle":
         return "(ESettleHodl %s)" % cN(e[1])
     if k == "cancel":
         return "(ECancel %s %s)" % (cN(e[1]), cbool(e[2]))
     if k == "timeout":
         return "(ETimeout %s %s %s)" % (cN(e[1]), copt(e[2], cN), cN(e[3]))
+    if k == "timeout_set":
+        return "(ETimeoutSet %s %s)" % (cN(e[1]), cN(e[2]))
     raise ValueError(k)
 
 
+HSTATE_N = {0: "HAccepted", 1: "HCanceled", 2: "HSettled"}
+
+
+def t_hamp(h):
+    if not h.get("amp"):
+        return "None"
+    pre = "None" if h["amp_pre"] < 0 else "(Some %s)" % cN(h["amp_pre"])
+    return "(Some (%s, %s, %s))" % (cN(h["set_id"]), cN(h["amp_hash"]), pre)
+
+
 def t_snap(s):
-    hs = clist(["(mkHS %s %s %s %s %s %s)" % (cN(h["key"]), cN(h["amt"]), cN(h["total"]),
-                                             cZ(h["expiry"]), cZ(h["height"]), HSTATE[h["state"]])
+    hs = clist(["(mkHS %s %s %s %s %s %s %s)" % (cN(h["key"]), cN(h["amt"]), cN(h["total"]),
+                                                cZ(h["expiry"]), cZ(h["height"]),
+                                                HSTATE[h["state"]], t_hamp(h))
                 for h in s["htlcs"]])
-    return "(mkIS %s %s %s %s %s)" % (cN(s["hash"]), CSTATE[s["state"]], cN(s["paid"]),
-                                      copt(s["pre"], cN), hs)
+    sets = clist(["(%s, (%s, %s))" % (cN(a[0]), HSTATE_N.get(a[1], "HAccepted"), cN(a[2]))
+                  for a in (s.get("amp_state") or [])])
+    return "(mkIS %s %s %s %s %s %s)" % (cN(s["hash"]), CSTATE[s["state"]], cN(s["paid"]),
+                                         copt(s["pre"], cN), hs, sets)
 
 
 def t_case(c):
@@ -91,8 +109,13 @@ def t_case(c):
                                          clist([t_snap(s) for s in o["snap"]]))
                  for o in c["ops"]])
     tbl = clist(["(%s, %s)" % (cN(a), cN(b)) for a, b in c["tbl"]])
-    return "(mkCase (mkCfg %s %s %s %s) %s %s)" % (
-        cZ(g["rd"]), cbool(g["keysend"]), cbool(g["kshold"]), cbool(g["kv"]), tbl, ops)
+
+    def pairs(l):
+        return clist(["(%s, %s)" % (cN(a), cN(b)) for a, b in l])
+    amp = clist(["(%s, %s)" % (pairs(e["descs"]), pairs(e["res"])) for e in (c.get("amp_tbl") or [])])
+    return "(mkCase (mkCfg %s %s %s %s %s) %s %s %s)" % (
+        cZ(g["rd"]), cbool(g["keysend"]), cbool(g["kshold"]), cbool(g["kv"]),
+        cbool(g.get("amp", False)), tbl, amp, ops)
 
 
 # ------------------------------------------------- predicate on the impl trace
@@ -113,8 +136,11 @@ def predicate(c):
     resolutions, LookupInvoice after every event).  Independent of the Coq
     model.  Returns [(theorem, message)]."""
     fails = []
-    amp = c["kind"] == "amp"
     rd = c["cfg"]["rd"]
+    kv = c["backend"] == "kv"
+    settled_at = {}    # key -> op index at which the record was first seen settled
+    vanished = set()   # keys whose record was dropped by the KV set rewrite (finding C15-F2)
+    F2 = "C15 amp:kv-settled-set-reuse-drops-records"
     invterms = {}      # hash id -> terms as added (first successful add)
     arrived = {}       # key -> notify input (first seen)
     settled_keys = {}  # key -> preimage hex seen in a settle resolution
@@ -133,10 +159,15 @@ def predicate(c):
         for hid, s in snaps.items():
             if hid not in invterms and hid not in prev and ev[0] == "notify":
                 h = ev[1]
+                amp = bool(h.get("amp")) and bool(c["cfg"].get("amp")) and h["mpp"] is not None
                 invterms[hid] = {"hash": hid, "addr": 0 if not amp else h["mpp"][0],
                                  "value": h["amt"] if not amp else h["mpp"][1], "delta": rd,
-                                 "hodl": bool(c["cfg"].get("kshold")), "amp": amp,
+                                 "hodl": bool(c["cfg"].get("kshold")) and not amp, "amp": amp,
                                  "addr_req": False, "jit": True}
+        for s in snaps.values():
+            for h in s["htlcs"]:
+                if h["state"] == "settled":
+                    settled_at.setdefault(h["key"], oi)
         # -- resolutions of this event
         resolutions = ([o["reply"]] if o["reply"][0] in ("settle", "fail") else []) + o["ntf"]
         for r in resolutions:
@@ -170,13 +201,20 @@ def predicate(c):
                 if terms is None:
                     fails.append(("C15_settle_sound", "%s: invoice %d unknown" % (where, inv["hash"])))
                     continue
+                if terms.get("amp") and hrec.get("amp_pre_hex") != prehex:
+                    fails.append(("C15_settle_sound", "%s: preimage released for AMP htlc %d is "
+                                  "not the one recorded on it" % (where, key)))
                 fails += [("C15_settle_sound", "%s: htlc %d: %s" % (where, key, m))
-                          for m in set_conditions(c, terms, inv, hrec, arrived, amp)]
+                          for m in set_conditions(c, terms, inv, hrec, arrived, settled_at)]
             elif r[0] == "fail":
                 if r[1] in settled_keys and r[3] not in JIT:
                     # (the JIT pre-check answer is classified by the replay check below)
-                    fails.append(("C15_no_settle_and_cancel", "%s: htlc %d failed after it was "
-                                  "settled" % (where, r[1])))
+                    if kv and r[1] in vanished:
+                        fails.append(("C15_replay_same_verdict", "%s (%s: htlc %d, whose settled "
+                                      "record was dropped, failed on replay)" % (F2, where, r[1])))
+                    else:
+                        fails.append(("C15_no_settle_and_cancel", "%s: htlc %d failed after it "
+                                      "was settled" % (where, r[1])))
         # -- replay verdicts: a recorded htlc that is notified again
         if ev[0] == "notify":
             key = ev[1]["key"]
@@ -213,7 +251,18 @@ def predicate(c):
             for ph in ps["htlcs"]:
                 h = now.get(ph["key"])
                 if h is None:
-                    fails.append(("C15_monotone", "%s: htlc %d vanished" % (where, ph["key"])))
+                    # finding C15-F2: KV store, this event settled a complete AMP payment
+                    # into the already settled set id of the vanished record
+                    pset = {a[0]: a[1] for a in (ps.get("amp_state") or [])}
+                    if (kv and ph.get("amp") and ev[0] == "notify" and ev[1].get("amp")
+                            and ev[1].get("set_id") == ph["set_id"] and pset.get(ph["set_id"]) == 2
+                            and o["reply"][0] == "settle" and o["reply"][4] == "settled"
+                            and ph["state"] != "accepted"):
+                        vanished.add(ph["key"])
+                        fails.append(("C15_monotone", "%s (%s: record of %s htlc %d dropped)"
+                                      % (F2, where, ph["state"], ph["key"])))
+                    else:
+                        fails.append(("C15_monotone", "%s: htlc %d vanished" % (where, ph["key"])))
                 elif (ph["state"], h["state"]) not in ORDER_H:
                     fails.append(("C15_monotone", "%s: htlc %d moved %s -> %s"
                                   % (where, ph["key"], ph["state"], h["state"])))
@@ -254,6 +303,23 @@ def predicate(c):
                     if h["total"] != 0 and h["total"] < terms["value"]:
                         fails.append(("C15_settle_sound", "%s: htlc %d recorded with set total %d < "
                                       "invoice value %d" % (where, h["key"], h["total"], terms["value"])))
+            if terms.get("amp") and not vanished:
+                live = sum(h["amt"] for h in s["htlcs"] if h["state"] != "canceled") % W64
+                if s["paid"] != live:
+                    fails.append(("C15_amt_paid", "%s: AMP invoice %d amt_paid %d, accepted+settled "
+                                  "htlcs sum to %d" % (where, hid, s["paid"], live)))
+                for sid, sst, samt in (s.get("amp_state") or []):
+                    mem = [h for h in s["htlcs"] if h.get("set_id") == sid]
+                    want = sum(h["amt"] for h in mem if h["state"] != "canceled") % W64
+                    if samt != want:
+                        fails.append(("C15_amt_paid", "%s: AMP invoice %d set %d amt_paid %d, its "
+                                      "accepted+settled htlcs sum to %d" % (where, hid, sid, samt, want)))
+                    if sst == 2 and any(h["state"] == "accepted" for h in mem):
+                        fails.append(("C15_monotone", "%s: settled AMP set %d holds an accepted htlc"
+                                      % (where, sid)))
+                if s["state"] not in ("open", "canceled"):
+                    fails.append(("C15_monotone", "%s: AMP invoice %d in state %s"
+                                  % (where, hid, s["state"])))
             if not terms.get("amp"):
                 ssum = sum(h["amt"] for h in s["htlcs"] if h["state"] == "settled") % W64
                 if s["state"] == "settled":
@@ -283,7 +349,7 @@ def predicate(c):
     return fails
 
 
-def set_conditions(c, terms, inv, hrec, arrived, amp):
+def set_conditions(c, terms, inv, hrec, arrived, settled_at):
     """Conditions under which htlc `hrec` of invoice snapshot `inv` may be
     settled (evaluated from the inputs the HTLCs arrived with)."""
     out = []
@@ -296,9 +362,17 @@ def set_conditions(c, terms, inv, hrec, arrived, amp):
             out.append("htlc %d accepted with expiry %d < height %d + %d"
                        % (h["key"], h["expiry"], h["height"], need))
 
-    if amp:
+    if terms.get("amp"):
+        # the htlcs of the set id that were settled by the same step (one set id
+        # may be paid again later by a self-contained payment)
         members = [h for h in inv["htlcs"] if h["state"] == "settled"
-                   and h.get("set_id") == hrec.get("set_id")]
+                   and h.get("set_id") == hrec.get("set_id")
+                   and settled_at.get(h["key"]) == settled_at.get(hrec["key"])]
+        if not hrec.get("amp") or hrec.get("set_id") == 0:
+            out.append("settled htlc on an AMP invoice without a (non-blank) set id")
+        if hrec.get("amp_pre_hex") is None or sha(hrec["amp_pre_hex"]) != hrec.get("amp_hash_hex") \
+                or hrec.get("amp_hash_hex") != hin["hash_hex"]:
+            out.append("recorded AMP preimage does not hash to the htlc's payment hash")
     else:
         members = [h for h in inv["htlcs"] if h["state"] == "settled"]
     for h in members:
@@ -350,20 +424,21 @@ def run(ctx):
         return
     # implementation-side predicate
     nfail = 0
-    nknown = 0
+    nknown = {}
     pred_bad = set()
     for ci, c in enumerate(rows):
         f = predicate(c)
         if f:
             pred_bad.add(ci)
-            known = [x for x in f if x[1].startswith("C15 replay:jit-precheck")]
-            other = [x for x in f if not x[1].startswith("C15 replay:jit-precheck")]
-            if known:
-                nknown += 1
-                if nknown <= 1:
-                    ctx.violation("impl_violates_predicate", known[0][0],
-                                  {"case": c, "fails": [m for _, m in known]},
-                                  signature=known[0][1])
+            other = [x for x in f if not x[1].startswith(KNOWN_SIG)]
+            for pref in KNOWN_SIG:
+                known = [x for x in f if x[1].startswith(pref)]
+                if known:
+                    nknown[pref] = nknown.get(pref, 0) + 1
+                    if nknown[pref] <= 1:
+                        ctx.violation("impl_violates_predicate", known[0][0],
+                                      {"case": c, "fails": [m for _, m in known]},
+                                      signature=known[0][1])
             if other:
                 nfail += 1
                 if nfail <= 3:
@@ -372,7 +447,7 @@ def run(ctx):
                                   signature="invoice %s/%s %s" % (c["kind"], c["backend"],
                                                                   other[0][1]))
     # correspondence (model-tied cases)
-    idx = [i for i, c in enumerate(rows) if c["kind"] == "model"]
+    idx = list(range(len(rows)))
     terms = [t_case(rows[i]) for i in idx]
     ok, bad, logs = coq_mismatches(ctx.uid(), IMPORTS, terms,
                                    shard=max(4, len(terms) // NCPU + 1))
@@ -428,7 +503,7 @@ def run(ctx):
         "samples": [[o["ev"] for o in rows[0]["ops"][:4]]],
         "correspondence_mismatches": len(bad),
         "predicate_failures": nfail,
-        "cases_hitting_jit_precheck_replay_finding": nknown,
+        "cases_hitting_known_findings": nknown,
     })
     ctx.assumptions += [
         "AMP share reconstruction and AMP per-set state are not in the Coq model: AMP cases are "
